@@ -217,7 +217,9 @@ class TwoFingerIntersector(Intersector):
         trace1 = traces[1]
 
         # Throw away the header, since we don't need it
-        if not self.started:
+        # Note: traces consumed before the first intersection has started
+        # are empty, the header only arrives with a later call
+        if not self.started and trace0:
             self.started = True
 
             self.num_ranks = (len(trace0[0]) - 1) // 2
